@@ -324,6 +324,10 @@ def run(ck, P):
           "the loop advances %s but the rewind after a removal decrements %s: a per-iteration copy is rewound, the position is not — the entry that back-shift "
           "deletion moved into the visited slot is skipped" % ([S(e.lhs) for e in steps], [S(e.lhs) for e in rewinds]))
 
+    ck.rule("C05.9-FLAG-BITS", "R-FLAG-BITS: m_map_flags are single distinct bits (every flag combination means what its parts mean)", floor=1)
+    from props.flags import flag_bits
+    flag_bits(ck, P, "C05.9-FLAG-BITS", "m_map_flags", M)
+
     ck.not_decided += ["correctness of probing/back-shift for colliding and wrapping clusters", "iteration visits every live entry exactly once",
                        "growth preserves all entries (depends on hash values)"]
 
